@@ -29,6 +29,11 @@ CLAIMED = {
     "C06": dict(technique="TLA+ reference rendering (PulserRender.tla) checked by TLC, compared with sampler.sample at every ns on TLC-generated behaviours", ref="5 C06",
                 text="For every behaviour TLC explores of the scheduler model, PulserRender.tla gives the reference rendering of the state (which slot plays at every ns of every channel, padding rules, per-atom attribution with DMM weights and XY SLM mask; well-formedness checked by TLC); the harness replays the behaviour on the tree and compares sampler.sample, extended sampling and to_nested_dict(all_local False/True) with the reference at every nanosecond.",
                 note="bounded: render configurations (ising with DMM/SLM/multi-target local, XY with two channels and SLM, EOM with/without custom buffer), depth 3 (quick) / 4 (thorough); phase compared on real pulses only; padding of a channel left in EOM mode is a don't-care in the per-atom view"),
+    "C08": dict(technique="TLA+ model of the parametrized (template) mode and of build() explored by TLC, replayed on the tree; build() compared with direct construction for every assignment", ref="5 C08",
+                text="spec/PulserSeq.tla models the parametrized mode (verify_variable, light validation, stored calls) and spec/PulserSeqMC.tla the result of build() for every variable assignment of the configuration; TLC explores every sequence of concrete and variable-argument calls up to the depth bound; every behaviour is replayed on the tree (state of the template and TLC's predicted built sequence compared), and after every call the real build(**assignment) is compared with a direct construction from the evaluated calls, the template is compared before/after, and builds are repeated in another order.",
+                note="bounded: the template configuration (3 channels + DMM, 8 variable-argument call shapes over 3 assignments of an int and a float variable, expressions x, 2x+4, x//2+1, (x//4)%3, 2y, -y), depth 3/4; mappable registers are exercised by C19 (build_register), not here"),
+    "C12": dict(technique="TLA+ reference (Geometry.tla, DeviceCtor.tla) enumerated by TLC, every state executed on the implementation", ref="5 C12",
+                text=FUNC_TEXT, note=FUNC_NOTE, engine="tlc-func"),
     "C07": dict(technique="TLA+ model checking (TLC) + spec-to-code replay + trace validation", ref="5 C07"),
     "C13": dict(technique="TLA+ model checking (TLC) + spec-to-code replay + trace validation", ref="5 C13"),
     "C15": dict(technique="TLA+ model checking (TLC) + spec-to-code replay + trace validation", ref="5 C15"),
